@@ -321,6 +321,32 @@ for v in range(3 * SCALE):
     if r[0] != "ok":
         rep.violation("impl-vs-spec", f"an honest previous SKR is refused ({r[2]}) after another file with a foreign key under the same identifier was read in this process",
                       {"kind": "honest-after-foreign", "xml": ksrxml.render_skr(skr), "num_bundles": n})
+# ---- file to verdict under other process time zones and timestamp notations: a KSR file is read in the zone the host happens to be in;
+# every notation ("...", "...Z", "...+00:00") means UTC, so the overlap verdict is the one the written instants give
+from kskm.ksr import request_from_xml
+from kskm.skr import response_from_xml
+for v in range(2 * SCALE):
+    zskpol = ksrxml.default_zsk_policy(min_overlap=D(days=9), max_overlap=D(days=12))
+    skr = prev_skr(R.choice([2, 3]), SCHEMA1, zskpol)
+    skr_xml = ksrxml.render_skr(skr)
+    for tz in ("UTC", "JST-9", "PST8", "IST-5:30"):
+        for suffix in ("", "Z", "+00:00"):
+            for b in (zskpol["min_overlap"], zskpol["max_overlap"]):
+                for delta in [D(hours=-10), D(seconds=-1), D(0), D(seconds=1), D(hours=10)]:
+                    ov = b + delta
+                    k = successor(skr, zskpol, overlap=ov)
+                    want = zskpol["min_overlap"] <= ov <= zskpol["max_overlap"]
+                    with ksrxml.process_zone(tz, suffix):
+                        ksr_xml = ksrxml.render_ksr(k)
+                        rq, rs = vlib.run_impl(request_from_xml, ksr_xml), vlib.run_impl(response_from_xml, skr_xml)
+                        r = vlib.run_impl(check_skr_and_ksr, rq[1], rs[1], RequestPolicy(), [FakeModule(token_for(skr))]) if rq[0] == rs[0] == "ok" else ("exc", 0, "document not read: " + str((rq, rs))[:200])
+                    loader_cases += 1
+                    kind = "file-overlap-zone-" + tz
+                    hist[kind] = hist.get(kind, 0) + 1
+                    if (r[0] == "ok") != want:
+                        rep.violation("impl-vs-spec", f"{kind}: a KSR file (timestamps written as ...{suffix!r}) whose first bundle starts {ov} before the previous SKR's last bundle ends "
+                                      f"(declared bounds {zskpol['min_overlap']}..{zskpol['max_overlap']}) is {'accepted' if r[0] == 'ok' else 'refused (' + str(r[2]) + ')'} when the process runs with TZ={tz}",
+                                      {"kind": kind, "TZ": tz, "ksr_xml": ksr_xml[:6000], "skr_xml": skr_xml[:6000], "overlap_s": ov.total_seconds()})
 import shutil
 
 shutil.rmtree(tmpd, ignore_errors=True)
